@@ -83,6 +83,10 @@ func errGen(t *rapid.T) *prog.ErrSpec {
 	// one, correct, grpc-status
 	if rapid.IntRange(0, 3).Draw(t, "forwarded") == 0 {
 		e.Meta = append(e.Meta, prog.KV{K: "Grpc-Status", V: rapid.SampledFrom([]string{"0", "7", "14"}).Draw(t, "upstreamStatus")}, prog.KV{K: "Grpc-Message", V: "upstream%20said"})
+		if rapid.Bool().Draw(t, "upstreamContentType") {
+			// … and its representation headers
+			e.Meta = append(e.Meta, prog.KV{K: "Content-Type", V: "application/grpc"}, prog.KV{K: "Content-Length", V: "17"})
+		}
 		if rapid.Bool().Draw(t, "upstreamDetails") {
 			e.Meta = append(e.Meta, prog.KV{K: "Grpc-Status-Details-Bin", V: "CAcSCHVwc3RyZWFt"})
 		}
@@ -94,7 +98,7 @@ func errGen(t *rapid.T) *prog.ErrSpec {
 func appMeta(kvs []prog.KV) []prog.KV {
 	var out []prog.KV
 	for _, kv := range kvs {
-		if !strings.HasPrefix(kv.K, "Grpc-") {
+		if !strings.HasPrefix(kv.K, "Grpc-") && !strings.HasPrefix(kv.K, "Content-") {
 			out = append(out, kv)
 		}
 	}
@@ -504,6 +508,15 @@ func checkC(tt *testing.T, c CCase) (pbt.Info, error) {
 	} else {
 		if res.Err == nil || res.Err.Code != c.Resp.ErrCode || res.Err.Msg != c.Resp.ErrMsg {
 			return info, fmt.Errorf("%s: conformant error %d %q decoded as %v", where, c.Resp.ErrCode, c.Resp.ErrMsg, res.Err)
+		}
+		want := c.Resp.Details()
+		if len(res.Err.Details) != len(want) {
+			return info, fmt.Errorf("%s: conformant error carries %d details, the client reports %d", where, len(want), len(res.Err.Details))
+		}
+		for i, d := range want {
+			if res.Err.Details[i].Type != "connect.ping.v1.PingRequest" || !bytes.Equal(res.Err.Details[i].Value, d.Value) {
+				return info, fmt.Errorf("%s: detail %d arrived as %s %x, sent %s %x", where, i, res.Err.Details[i].Type, res.Err.Details[i].Value, d.TypeURL, d.Value)
+			}
 		}
 	}
 	if len(res.Received) != len(c.Resp.Msgs) && !(single && c.Resp.ErrCode != 0) {
